@@ -1,4 +1,6 @@
 import Proofs.Sync
+import Proofs.Locks
+import Generated.Facts
 /-! # C12 — Close and Disconnect end the client from any state, promptly and for good
 
 Model: `Model.Sync` — the two semaphores, the signals, one read routine and any
@@ -94,3 +96,11 @@ example : ∃ c : Cfg, Reachable c ∧ c.pc 1 = .cWait ∧ c.pc 0 = .wHold := by
   exact ⟨_, s6, by simp [setPc], by simp [setPc]⟩
 
 end Model.Sync
+
+namespace Model
+
+/-! ## Closers take connection control before the write lock, like the read routine: they cannot block each other for ever -/
+
+theorem C12_fact_closers_lock_order : orderOK Facts.syn_Close_locks = true ∧ orderOK Facts.syn_Disconnect_locks = true := by decide
+
+end Model
